@@ -223,20 +223,20 @@ theorem readAll_frame {rec : Rec} (hrec : FrameRec rec) : ∀ (cs : List Nat) (s
           exact f1
 
 theorem notifyLoop_frame {rec : Rec} (hrec : FrameRec rec) (k : Key) (old new : Option Int) :
-    ∀ (xs act : List Sub) (s s' : St) (r : Except Err (List Sub)),
-    notifyLoop rec k old new xs act s = some (s', r) → Frame s s' := by
+    ∀ (xs : List Sub) (s s' : St) (r : Except Err Unit),
+    notifyLoop rec k old new xs s = some (s', r) → Frame s s' := by
   intro xs
   induction xs with
   | nil =>
-    intro act s s' r h
+    intro s s' r h
     simp only [notifyLoop] at h
     injection h with h; injection h with h1 _; subst h1
     exact Frame.refl _
   | cons x xs ih =>
-    intro act s s' r h
+    intro s s' r h
     simp only [notifyLoop] at h
     split at h
-    · exact ih _ s s' r h
+    · exact ih s s' r h
     · cases x with
       | dirty c =>
         simp only at h
@@ -250,7 +250,7 @@ theorem notifyLoop_frame {rec : Rec} (hrec : FrameRec rec) (k : Key) (old new : 
           rw [hc] at h
           simp only at h
           split at h
-          · exact ih _ s s' r h
+          · exact ih s s' r h
           · cases hg : rec (.notify (cx.owner, cx.name) cx.value none) (s.setComp c { cx with dirty := true }) with
             | none => simp [hg] at h
             | some res =>
@@ -265,7 +265,7 @@ theorem notifyLoop_frame {rec : Rec} (hrec : FrameRec rec) (k : Key) (old new : 
                 exact f1
               | ok u =>
                 simp only at h
-                exact f1.trans (ih _ s1 s' r h)
+                exact f1.trans (ih s1 s' r h)
       | user hh =>
         simp only at h
         cases hg : readAll rec (s.progs hh) { s with log := s.log ++ [⟨hh, k.1, k.2, old, new⟩] } with
@@ -282,17 +282,17 @@ theorem notifyLoop_frame {rec : Rec} (hrec : FrameRec rec) (k : Key) (old new : 
             exact f1
           | ok u =>
             simp only at h
-            exact f1.trans (ih _ s1 s' r h)
+            exact f1.trans (ih s1 s' r h)
 
 theorem notifyT_frame {rec : Rec} (hrec : FrameRec rec) {k : Key} {old new : Option Int} {s s' : St} {r : R}
     (h : notifyT rec k old new s = some (s', r)) : Frame s s' := by
   unfold notifyT at h
-  cases hg : notifyLoop rec k old new ((s.regs k.1).subs k.2 .change) [] s with
+  cases hg : notifyLoop rec k old new ((s.regs k.1).subs k.2 .change) s with
   | none => simp [hg] at h
   | some res =>
     obtain ⟨s1, r1⟩ := res
     rw [hg] at h
-    have f1 := notifyLoop_frame hrec k old new _ _ _ _ _ hg
+    have f1 := notifyLoop_frame hrec k old new _ _ _ _ hg
     cases r1 with
     | error e =>
       simp only at h
